@@ -14,10 +14,10 @@ from .C05 import to_latlon
 ID = "C17"
 CASES = {"quick": 10000, "thorough": 300000}
 MIN_CASES_PER_SHARD = 50
-CASE_TIMEOUT = 40
+CASE_TIMEOUT = 240
 RULE = ("one case = generated map (incl. zero-length roads, self-listed neighbours) x hostile trace (observations exactly on nodes / on roads / "
         "collinear with roads, repeated observations, dyadic coordinates) x configuration (all families, both metrics, non-emitting on/off, "
-        "obs_noise incl. 1.3 and scaled values, cut-offs present or absent; latitude-longitude without any cut-off), run with pairs and with "
+        "obs_noise incl. 1.3 and scaled values, cut-offs present or absent; latitude-longitude without any cut-off; every 150th case a sparse trace over a road of 150..2500 segments, every 1200th a dense trace of 1100..1600 observations), run with pairs and with "
         "(lat, lon, time) triples. Non-trivial = distinct (family, metric, non-emitting, trace class) cell member whose match is non-empty; "
         "distinct = hash of the case")
 ANCHORS = [("leuvenmapmatching/matcher/base.py", "BaseMatching.next"),
@@ -30,12 +30,45 @@ ANCHORS = [("leuvenmapmatching/matcher/base.py", "BaseMatching.next"),
 CELLS = [f"cell:{f}:{m}:{'ne' if n else 'e'}" for f in gen.FAMILIES_ALL for m in ("planar", "latlon") for n in (False, True)]
 FLOORS = {c: 60 for c in CELLS}
 FLOORS.update({"pairs_runs": 2500, "triples_runs": 2500, "zero_distance_observations": 1500, "latlon_without_cutoff": 250,
-               "zero_length_road_maps": 150, "repeated_observation_traces": 200, "nonempty_matches": 1500})
+               "zero_length_road_maps": 150, "size_class:long_chain": 40, "size_class:long_trace": 5, "repeated_observation_traces": 200, "nonempty_matches": 1500})
 ASSUMPTIONS = ["valid input = finite coordinates, non-empty trace, positive noise parameters; the trace may be entirely off the map",
                "pairs-vs-triples: canonical results must be equal (==)"]
 
 
+def _chain_map(n, twoway, step=1.0):
+    nodes = [[j, [0.0, step * j]] for j in range(n + 1)]
+    edges = [[j, j + 1] for j in range(n)]
+    if twoway:
+        edges += [[j + 1, j] for j in range(n)]
+    return {"nodes": nodes, "edges": edges, "latlon": False, "kind": "longchain"}
+
+
+def gen_size_case(rng, i):
+    """'every finite map and non-empty trace': sizes at which a bound inside the implementation (search depth, recursion per
+    non-emitting level or per observation) would bite.  A sparse trace over a finely digitised road (150 .. 2500 segments
+    between two observations), or a long dense trace (1100 .. 1600 observations)."""
+    fam = rng.choice(gen.FAMILIES_ALL)
+    if i % 150 == 11:
+        n = rng.choice([150, 400, 990, 1100, 1500, 2500])
+        cfg = gen.gen_cfg(rng, families=(fam,), ne=True, width="maybe", cut=False)
+        cfg["max_dist_init"] = rng.choice([1.0, 3.0])
+        m = _chain_map(n, rng.random() < 0.3)
+        tr = [[0.2, 0.5], [0.2, n - 0.5]]
+        if rng.random() < 0.4:
+            tr.insert(1, [-0.1, n / 2.0])
+        return {"map": m, "trace": tr, "cfg": cfg, "cls": "long_chain", "metric": "planar", "size": n}
+    k = rng.choice([1100, 1300, 1600])
+    cfg = gen.gen_cfg(rng, families=(fam,), ne=(rng.random() < 0.3), width="maybe", cut=False)
+    cfg["max_dist"] = 2.0
+    m = _chain_map(rng.choice([20, 60]), True)
+    top = len(m["nodes"]) - 1
+    tr = [[0.1 * ((j % 3) - 1), top * j / (k - 1.0)] for j in range(k)]
+    return {"map": m, "trace": tr, "cfg": cfg, "cls": "long_trace", "metric": "planar", "size": k}
+
+
 def gen_case(rng, i, tier):
+    if i % 150 == 11 or i % 1200 == 77:
+        return gen_size_case(rng, i)
     latlon = rng.random() < 0.45
     case = mcase.gen_mcase(rng, families=gen.FAMILIES_ALL, width="maybe", tighten_p=0.15, sparse_p=0.25, max_obs=8,
                            kinds=("random", "grid", "grid", "chain", "chain_dyadic"))
@@ -88,6 +121,8 @@ def check_case(ctx, case):
     metric = case["metric"]
     cell = f"cell:{cfg['family']}:{metric}:{'ne' if cfg['non_emitting'] else 'e'}"
     ctx.count(cell)
+    if case["cls"] in ("long_chain", "long_trace"):
+        ctx.count(f"size_class:{case['cls']}")
     if metric == "latlon" and cfg["max_dist"] is None and cfg["max_dist_init"] is None:
         ctx.count("latlon_without_cutoff")
     if "+zero" in case["map"].get("kind", ""):
